@@ -841,7 +841,7 @@ def main(run):
                                 "and ur_drift under the default diffuse_method='fixed_unknown', deviation in {T,F}, same masks (those that identify the "
                                 "initial condition), against the concentrated-likelihood oracle")
     run.stubs.append("(A-UR) numpy.linalg.lstsq with a concrete matrix and a symbolic right-hand side executed as pinv(matrix) @ rhs")
-    run.outside += ["approx_diffuse and fixed_zero initialisation", "unit-root models with rescale_variance", "observation sets that do not identify the unknown initial condition", "time-varying stds in (A)", "n>2 or m>2 in (B)", "spans > 3 periods"]
+    run.outside += ["approx_diffuse and fixed_zero initialisation", "unit-root models with rescale_variance", "observation sets that do not identify the unknown initial condition", "time-varying stds other than the two per model supplied in (A)", "n>2 or m>2 in (B)", "spans > 3 periods"]
     models = ("nk3", "ar2m") if run.tier == "quick" else ("nk3", "ar2m", "pc_const")
     nper = 3
     for name in models:
